@@ -70,12 +70,12 @@ type Ref struct {
 	BigInPlace bool
 	// Exhausted is set once the step or data budget was exceeded: the run is unusable.
 	Exhausted bool
-	Out    strings.Builder
-	Global *Env
-	env    *Env
-	Steps  int
-	Max    int // step budget (0 = default)
-	depth  int
+	Out       strings.Builder
+	Global    *Env
+	env       *Env
+	Steps     int
+	Max       int // step budget (0 = default)
+	depth     int
 	// Ext lets a monitor add deterministic extension functions (e.g. verif_tick).
 	Ext map[string]func(args []Val) Val
 }
